@@ -174,6 +174,23 @@ func (x *Exec) runTop(fn *ssa.Function, spec *FuncSpec) {
 			m.assume(t)
 		}
 	}
+	// package-level variables named by "globals" hold their initial values (assumption: they
+	// are treated as constants by the code base)
+	if spec != nil {
+		for _, g := range spec.Globals {
+			for _, p := range x.L.Prog.AllPackages() {
+				if p.Pkg.Path() == g || strings.HasSuffix(p.Pkg.Path(), "/"+g) {
+					p.Build()
+					if initFn := p.Func("init"); initFn != nil && len(initFn.Blocks) > 0 {
+						x.inInit = true
+						x.assumed["package-level variables of "+p.Pkg.Path()+" hold their initial values"]++
+						x.inlineInit(fr, st, initFn)
+						x.inInit = false
+					}
+				}
+			}
+		}
+	}
 	x.entry = st.clone()
 	x.runBody(fr, st)
 	// postconditions at every return
